@@ -55,6 +55,8 @@ Proof.
   - assumption.
   - apply out_extends_refl.
   - apply out_extends_refl.
+  - apply out_extends_refl.
+  - apply out_extends_refl.
 Qed.
 
 (* C19 no_retract *)
